@@ -128,14 +128,15 @@ def broadcast_pair(rnd: random.Random, max_rank=3, zero_p=0.1):
     return a, b
 
 
-def symbolic_sig(rnd: random.Random, shape, p_sym=0.6):
-    """Placeholder signature consistent with `shape`: ints, 'N'-style symbols or None."""
+def symbolic_sig(rnd: random.Random, shape, p_sym=0.6, tag=""):
+    """Placeholder signature consistent with `shape`: ints, 'N'-style symbols or None.
+    `tag` makes the symbols of different inputs distinct (their run-time extents may differ)."""
     sig = []
     names = ["N", "M", "K", "L"]
     for i, s in enumerate(shape):
         c = rnd.random()
         if c < p_sym / 2:
-            sig.append(names[i % 4] + str(i))
+            sig.append(names[i % 4] + str(i) + tag)
         elif c < p_sym:
             sig.append(None)
         else:
